@@ -167,7 +167,13 @@ PREFER = {
     "exhaustion_demotes_leader": ["MC_Wit_NR2.cfg", "MC_Wit_OutNR2.cfg"], "double_promotion": ["MC_Wit_OutNR2.cfg", "MC_Wit_Out.cfg"],
     "stale_event_demotes": ["MC_Wit_Restart.cfg", "MC_Core2_quick.cfg"], "promote_ctx_is_election_ctx": ["MC_Core2_quick.cfg"],
     "stop_keeps_claim": ["MC_Core2_quick.cfg"], "claim_after_stop": ["MC_Core2_quick.cfg"],
-    "watch_failure_gives_up": ["MC_VacancyFault_thorough.cfg"], "disconnect_ignored_while_follower": ["MC_Conn_quick.cfg", "MC_Conn_thorough_single.cfg"],
+    "verification_failure_without_demotion": ["MC_Wit_ConnOut.cfg"], "four_failures": ["MC_Wit_Fail4.cfg"],
+    "takeover_continues_after_stop": ["MC_Wit_PrioStop.cfg"], "hb_no_recheck_after_health": ["MC_Wit_HealthPrio.cfg"],
+    "watcher_demotion_without_callback": ["MC_Wit_PrioStop.cfg", "MC_Core3_thorough.cfg"],
+    "stale_observation_regresses": ["MC_Prio_quick.cfg"], "follower_bookkeeping_overwrites_leader": ["MC_Wit_PrioStop.cfg", "MC_Prio_quick.cfg"],
+    "start_failure_demotes_leader": ["MC_Wit_Restart.cfg", "MC_Wit_NR2.cfg"], "attempt_while_leading": ["MC_Wit_NR2.cfg"],
+    "watch_acts_after_cancel": ["MC_Core2_quick.cfg", "MC_Wit_Restart.cfg"],
+    "watch_failure_gives_up": ["MC_VacancyFault_thorough.cfg"], "disconnect_ignored_while_follower": ["MC_Wit_ConnTerms.cfg"],
 }
 
 
